@@ -163,14 +163,15 @@ pub fn edit_value(v: &mut Value, path: &Path, edit: ValueEdit, modulus: u64) -> 
     let Some(leaf) = get_mut(v, path) else { return false };
     let Some(old) = leaf.as_u64() else { return false };
     let oldr = old % modulus;
+    let m = modulus as u128;
     let mut new = match edit {
-        ValueEdit::Plus1 => (oldr + 1) % modulus,
-        ValueEdit::Minus1 => (oldr + modulus - 1) % modulus,
+        ValueEdit::Plus1 => ((oldr as u128 + 1) % m) as u64,
+        ValueEdit::Minus1 => ((oldr as u128 + m - 1) % m) as u64,
         ValueEdit::Zero => 0,
         ValueEdit::Set(x) => x % modulus,
     };
     if new == oldr {
-        new = (oldr + 1) % modulus;
+        new = ((oldr as u128 + 1) % m) as u64;
     }
     *leaf = Value::from(new);
     true
